@@ -9,7 +9,46 @@ import (
 )
 
 type Locker = sync.Locker
-type Pool = sync.Pool
+
+// Pool is sync.Pool made deterministic under the controlled scheduler: within one
+// execution Get returns the most recently Put object (LIFO, so that every reuse the
+// real pool may perform does happen and stale state in a recycled object shows),
+// and nothing survives from one execution to the next.
+type Pool struct {
+	New  func() interface{}
+	real sync.Pool
+}
+
+type poolKey struct{ p *Pool }
+
+func (p *Pool) Get() interface{} {
+	if vrt.Active() {
+		st := vrt.ExecLocal(poolKey{p}, func() interface{} { return &[]interface{}{} }).(*[]interface{})
+		if n := len(*st); n > 0 {
+			v := (*st)[n-1]
+			*st = (*st)[:n-1]
+			return v
+		}
+	} else if v := p.real.Get(); v != nil {
+		return v
+	}
+	if p.New != nil {
+		return p.New()
+	}
+	return nil
+}
+
+func (p *Pool) Put(x interface{}) {
+	if x == nil {
+		return
+	}
+	if vrt.Active() {
+		st := vrt.ExecLocal(poolKey{p}, func() interface{} { return &[]interface{}{} }).(*[]interface{})
+		*st = append(*st, x)
+		return
+	}
+	p.real.Put(x)
+}
 
 // Mutex is sync.Mutex under the controlled scheduler.
 type Mutex struct {
